@@ -144,6 +144,11 @@ func (w *World) isRepoNamed(t types.Type) (*types.Named, bool) {
 	return n, strings.HasPrefix(n.Obj().Pkg().Path(), modPath)
 }
 
+// modelledExt: library structs whose exported fields the repository reads and
+// writes directly; they are modelled field by field like the repository's own
+// (library code touching them is still only known through its contracts).
+var modelledExt = map[string]bool{"net/http.Response": true, "net/http.Request": true, "net/url.URL": true}
+
 func typeStr(t types.Type) string {
 	t = types.Unalias(t)
 	switch u := t.(type) {
@@ -172,7 +177,7 @@ func typeStr(t types.Type) string {
 func (w *World) repoStruct(t types.Type) (*types.Struct, bool) {
 	t = types.Unalias(t)
 	if n, ok := t.(*types.Named); ok {
-		if _, in := w.isRepoNamed(n); !in {
+		if _, in := w.isRepoNamed(n); !in && !modelledExt[typeStr(n)] {
 			return nil, false
 		}
 		st, ok := n.Underlying().(*types.Struct)
